@@ -100,4 +100,35 @@ PROPS = {
         min={"quick": {"traces_depth_ge1_with_delimiter_message": 10000, "frames_roundtripped": 100000}, "thorough": {}},
         assumptions=["a top level with neither exception nor frames is not a stack trace (nothing is printed for it); cause levels always carry an exception (the printer has no representation for a cause without one)"],
     ),
+    "C10": dict(
+        level="exploration",
+        stages={"quick": [dict(variant="native", cases=4000)],
+                "thorough": [dict(variant="native", cases=80000), dict(variant="asan", cases=4000)]},
+        rule="case = (mapping file as in C02, writer in {pinned 5.5.0 snapshot, current tree}, query): the file is parsed by both readers; each must accept or reject with WrongVersion; when both accept, every primitive query of the universe (remap_class, remap_method, remap_frame by line and by params, remap_throwable, deobfuscate_signature, text remap_stacktrace) is answered by both and compared; distinct = distinct (cache bytes, query) with a non-empty answer",
+        min={"quick": {"pairs_writer_pinned_reader_current": 1000, "pairs_writer_current_reader_pinned": 1000, "files_both_readers_accept": 1000, "nonempty_by_line": 10000, "nonempty_by_params": 1000},
+             "thorough": {}},
+        assumptions=[DOMAIN, ALIGN, "the pinned release is the frozen copy of src/ at f3fcb84 under /verif/pinned (package renamed), linked into the same process",
+                     "remap_stacktrace_typed is excluded: it is a pure composition of the primitives compared here, and its handling of unknown exception classes was repaired (D3) independently of the file format"],
+    ),
+    "C11": dict(
+        level="fault_enumeration",
+        stages={"quick": [dict(variant="native", cases=640), dict(variant="miri", cases=8, shards=8, timeout=2400)],
+                "thorough": [dict(variant="native", cases=12800), dict(variant="miri", cases=64, shards=16, timeout=6000), dict(variant="asan", cases=1280)]},
+        rule="for every generated cache file (24 B .. 8 KiB; zero-class, memberless, odd/even counts) EVERY strict prefix length 0..len-1 (what a crash during writing can leave) as a slice of the same 8-aligned buffer, and 30 single-field header edits (magic: byte-swapped/0/PRGD; version: 0/2/2^32-1; each of the four counts: 0, -1, +1, +1000, 2^31, 2^32-1); expected error kind from the independent layout walk (padding belongs to the section it precedes); an accepted prefix must answer every query like the full file; distinct = distinct (file, prefix length)",
+        min={"quick": {"prefix_rejected_InvalidHeader": 100, "prefix_rejected_InvalidClasses": 100, "prefix_rejected_InvalidMembers": 100, "prefix_rejected_UnexpectedStringBytes": 100,
+                       "edit_rejected_WrongEndianness": 100, "edit_rejected_WrongFormat": 100, "edit_rejected_WrongVersion": 100, "header_edits_string_bytes": 100},
+             "thorough": {}},
+        exhaustive_note="per file the fault space (all prefix lengths, all listed header edits) is enumerated completely; files themselves are sampled",
+        assumptions=[ALIGN],
+    ),
+    "C12": dict(
+        level="exploration",
+        stages={"quick": [dict(variant="native", cases=3200), dict(variant="asan", cases=320), dict(variant="miri", cases=8, shards=8, timeout=2400)],
+                "thorough": [dict(variant="native", cases=64000), dict(variant="asan", cases=6400), dict(variant="miri", cases=128, shards=16, timeout=6000), dict(variant="valgrind", cases=640, shards=16, timeout=3000)]},
+        rule="case = (valid cache file, corruption, query): corruptions = one u32 field set to a boundary value (systematic sweep over the field map + random), multi-edits, record swaps/duplicates, bit flips, string length-prefix / UTF-8 damage, random bodies behind a valid header, random buffers; each buffer that parses is queried over classes x methods x lines {0,1,2,7,40,2^32-1,2^32,2^64-1} x by-params x throwable x text/typed traces x signatures under the panic/overflow trap with a pointer-provenance check on every returned string; distinct = distinct corrupted buffers whose answers differ from the valid file's (corruption reached a query)",
+        min={"quick": {"corrupted_buffers_parsed": 10000, "corruptions_felt_by_a_query": 5000, "random_buffers_parsed": 10,
+                       "field_hits_section1_idx3": 50, "field_hits_section1_idx5": 50, "field_hits_section2_idx2": 50, "field_hits_section3_idx8": 50},
+             "thorough": {}},
+        assumptions=[ALIGN, "ProguardCache::test() and the debug/display views unwrap by design and are not queries; they are not called on corrupted buffers"],
+    ),
 }
